@@ -201,6 +201,16 @@ func buildScriptD(assumes []*Term, o *Obligation, groundOnly bool, depth int) (s
 }
 
 var pushSel = os.Getenv("LNCVC_NOPUSHSEL") == ""
+var shallowLimit = func() int {
+	if v := os.Getenv("LNCVC_SHALLOWLIMIT"); v != "" {
+		n := 0
+		fmt.Sscanf(v, "%d", &n)
+		if n > 0 {
+			return n
+		}
+	}
+	return 6
+}()
 var shallowDepth = func() int {
 	if v := os.Getenv("LNCVC_SHALLOW"); v != "" {
 		n := 0
@@ -385,9 +395,9 @@ func main() {
 		cts = append(cts, ct)
 	}
 	sort.Slice(cts, func(i, j int) bool { return contractName(cts[i]) < contractName(cts[j]) })
-	timeout := 60
+	timeout := 150
 	if *tier == "thorough" {
-		timeout = 300
+		timeout = 450
 	}
 	var results []*FuncResult
 	for _, ct := range cts {
@@ -472,7 +482,7 @@ func main() {
 			}()
 			if sscript != "" {
 				// the two-step cone of influence, quantifier-free: unsat is conclusive
-				r := Solve(sscript, nil, 6, slam)
+				r := Solve(sscript, nil, shallowLimit, slam)
 				if r.Status == "unsat" {
 					r.Solver += " (shallow cone)"
 					j.o.Res = r
@@ -490,7 +500,7 @@ func main() {
 					usedScript, usedLam = gscript, glam
 					return
 				}
-				if r.Status == "sat" && timeout <= 60 {
+				if r.Status == "sat" && timeout <= 150 {
 					// the instantiated VC has a model: the quantified VC is rarely
 					// provable then; give it a third of the budget in the quick tier
 					j.o.Res = Solve(script, probes, timeout/3, lam)
